@@ -10,6 +10,7 @@ From FDO Require Fdo.Handover.
 From FDO Require Fsim.Transfer.
 From FDO Require Svi.Devmod Svi.Modules.
 From FDO Require Fdo.Owner.
+From FDO Require Fdo.Extend.
 Local Open Scope N_scope.
 
 Definition unhexnum (b : bytes) : option N :=
@@ -751,6 +752,49 @@ Section Dispatch.
       end
     else None.
 
+  (* ---- ExtendVoucher: voucher.extend b:<voucher> (mfg shape) (signer shape) (next shape) (device shape) kk kn kid ((z:k b:v) ...) b:<next key> ---- *)
+  Definition shape_of (a : arg) : option Extend.kshape :=
+    match a with
+    | AL [k; AN n] => if sym_is k "ec"%bs then Some (Extend.KEC n) else if sym_is k "rsa"%bs then Some (Extend.KRSA n) else Some Extend.KOtherKey
+    | _ => None
+    end.
+  Fixpoint extra_of (l : list arg) : option (list (val * val)) :=
+    match l with
+    | [] => Some []
+    | AL [AZ k; AB v] :: r => option_map (cons (VInt k, VBytes v)) (extra_of r)
+    | _ => None
+    end.
+  Definition run_extend (kind : bytes) (args : list arg) : option bytes :=
+    if bytes_eqb kind (s "voucher.extend"%bs) then
+      match args with
+      | [AB vb; am; asg; an; ad; kk; kn; kid; AL ex; AB nk] =>
+        match shape_of am, shape_of asg, shape_of an, shape_of ad, parse_key kk kn kid, extra_of ex, munmarshal ty_pubkey nk with
+        | Some mfg, Some signer, Some next, Some dev, Some skey, Some extra, Ok next_pk =>
+          match munmarshal ty_voucher vb with
+          | Ok (VList [_; hdr; hm; _; VList ents]) =>
+            match entries_of ents with
+            | Some es =>
+              if negb (Extend.extend_guard O_pubkey mfg signer next skey hdr es) then Some (s "refuse"%bs) else
+              match Extend.hash_alg_for dev signer with
+              | Ok alg =>
+                match Extend.extend_payload O_hash alg hdr hm es (VMap extra) next_pk with
+                | Ok pl => Some (render_outcome (fun b => s "b:"%bs ++ hex b) (enc enc_fuel ty_entry_payload pl))
+                | _ => Some (s "refuse"%bs)
+                end
+              | Panic _ => Some (s "panic"%bs)
+              | _ => Some (s "refuse"%bs)
+              end
+            | None => Some (s "err-shape"%bs)
+            end
+          | Ok _ => Some (s "err-shape"%bs)
+          | _ => Some (s "err-decode"%bs)
+          end
+        | _, _, _, _, _, _, _ => Some bad_args
+        end
+      | _ => Some bad_args
+      end
+    else None.
+
   Definition dispatch (kind : bytes) (args : list arg) : bytes :=
     match run_cbor kind args with
     | Some r => r
@@ -784,7 +828,7 @@ Section Dispatch.
                                                                   | Some r => r
                                                                   | None => match run_fsim kind args with
                                                                             | Some r => r
-                                                                            | None => match run_devmod kind args with Some r => r | None => match run_owner kind args with Some r => r | None => s "unknown-kind"%bs end end
+                                                                            | None => match run_devmod kind args with Some r => r | None => match run_owner kind args with Some r => r | None => match run_extend kind args with Some r => r | None => s "unknown-kind"%bs end end end
                                                                             end
                                                                   end
                                                         end
